@@ -356,11 +356,26 @@ func (r *Runner) onEvent(sub int) func(w *ecs.World, e ecs.EntityEvent) {
 			}
 			return "0"
 		}
-		r.events = append(r.events, fmt.Sprintf("! %d %s +%s -%s a%s r%s %s %s %s %d L%s A%s T%s",
+		vals := []string{}
+		if alive {
+			for _, id := range w.Ids(e.Entity) {
+				k := int(ecs.VerifIDValue(id))
+				val := "?"
+				if k < len(r.comps) {
+					if p := w.Get(e.Entity, id); p == nil {
+						val = "nil"
+					} else {
+						val = r.comps[k].readVal(p)
+					}
+				}
+				vals = append(vals, fmt.Sprintf("%d=%s", k, val))
+			}
+		}
+		r.events = append(r.events, fmt.Sprintf("! %d %s +%s -%s a%s r%s %s %s %s %d L%s A%s T%s V[%s]",
 			sub, showEnt(e.Entity), joinInts(idsOfMask(&e.Added, r.bits)), joinInts(idsOfMask(&e.Removed, r.bits)),
 			joinInts(sortedIDs(e.AddedIDs)), joinInts(sortedIDs(e.RemovedIDs)),
 			optID(e.OldRelation), optID(e.NewRelation), showEnt(e.OldTarget), int(e.EventTypes),
-			b01(w.IsLocked()), b01(alive), cur))
+			b01(w.IsLocked()), b01(alive), cur, strings.Join(vals, ",")))
 	}
 }
 
